@@ -37,6 +37,54 @@ type c14Addr int
 func (a c14Addr) Network() string { return "c14" }
 func (a c14Addr) String() string  { return "s" + strconv.Itoa(int(a)) }
 
+// c14StrAddr: a net.Addr that is not one of package net's types; Network() and String() are whatever the case says
+// (so two values can agree on every "IP and port" reading and still differ in String(), or differ in Network()
+// and agree in String()).
+type c14StrAddr struct{ network, str string }
+
+func (a c14StrAddr) Network() string { return a.network }
+func (a c14StrAddr) String() string  { return a.str }
+
+// c14AddrSpec: one row of a case's source-address table (source number = row index).  The harness builds the
+// net.Addr VALUE; what its String() is, is decided by the Go code under test's own standard library, never by
+// the generator.
+//   t = "udp" / "tcp": *net.UDPAddr / *net.TCPAddr {IP: the bytes of ip (0, 4, 16 or any other number), Port, Zone}
+//   t = "ip": *net.IPAddr {IP, Zone};  t = "unix": *net.UnixAddr {Name, Net};  t = "str": c14StrAddr {Net, Name}
+//   t = "udpnil": a nil *net.UDPAddr inside a non-nil net.Addr;  t = "" / "fake": c14Addr(row index)
+// g is the generator's CLAIM of the String() class (equal g <=> equal String()); the harness checks the claim
+// against the real String() values and fails the case when it is wrong.
+type c14AddrSpec struct {
+	T    string `json:"t"`
+	IP   string `json:"ip"`
+	Port int    `json:"port"`
+	Zone string `json:"zone"`
+	Name string `json:"name"`
+	Net  string `json:"net"`
+	G    int    `json:"g"`
+}
+
+func (sp c14AddrSpec) build(i int) net.Addr {
+	var ip net.IP
+	if sp.IP != "" {
+		ip = net.IP(vUnhex(sp.IP))
+	}
+	switch sp.T {
+	case "udp":
+		return &net.UDPAddr{IP: ip, Port: sp.Port, Zone: sp.Zone}
+	case "tcp":
+		return &net.TCPAddr{IP: ip, Port: sp.Port, Zone: sp.Zone}
+	case "ip":
+		return &net.IPAddr{IP: ip, Zone: sp.Zone}
+	case "unix":
+		return &net.UnixAddr{Name: sp.Name, Net: sp.Net}
+	case "str":
+		return c14StrAddr{sp.Net, sp.Name}
+	case "udpnil":
+		return (*net.UDPAddr)(nil)
+	}
+	return c14Addr(i)
+}
+
 var errC14Empty = errors.New("c14: nothing queued")
 
 type c14Dg struct {
@@ -109,6 +157,11 @@ type c14MsgSpec struct {
 	// fi >= total).  A short-header packet has one datagram: any kind but "call" with fi > 0 refuses it.
 	Fk string `json:"fk"`
 	Fi int    `json:"fi"`
+	// Tot > 0 (only without an injected fault): the write is repeated on the real sender, with the message counter
+	// put back, until crypto/rand happens to cut the packet into exactly Tot chunks (rejection sampling of the
+	// implementation's own draw; at most 400 attempts, expected 7), so that messages of DIFFERENT senders can be
+	// given the same message id and the same chunk count
+	Tot int `json:"tot"`
 }
 
 func (m c14MsgSpec) build() []byte {
@@ -146,6 +199,10 @@ type c14Case struct {
 	// success, at every source from which all of its frames are fed (the generator keeps such histories
 	// inside one TTL window with at most 7 message ids per source, so nothing may be refused or expired)
 	AutoMust bool `json:"automust"`
+	// Addrs: the source-address table.  Empty: source number s is the harness's own c14Addr(s) (String() = "s<s>").
+	// Otherwise every source number used by the operations is a row index.  A SOURCE, for every verdict below, is a
+	// String() value: two rows with equal String() are one source, two rows with different String() are two.
+	Addrs []c14AddrSpec `json:"addrs"`
 }
 
 const c14PSK = "c14-verif-password"
@@ -405,7 +462,16 @@ func c14Seq(c c14Case, res map[string]any) {
 			}
 		}
 		orig := append([]byte(nil), p...)
-		n, err := s.g.WriteTo(p, c14Addr(1000000))
+		var n int
+		var err error
+		for attempt := 0; ; attempt++ {
+			n, err = s.g.WriteTo(p, c14Addr(1000000))
+			if ms.Tot <= 0 || ms.Fk != "" || err != nil || len(p) == 0 || p[0]&0x80 == 0 || len(s.inner.sent) == ms.Tot || attempt >= 400 {
+				break
+			}
+			s.g.msgID.Store(before) // the draw did not give the wanted chunk count: undo, write again
+			s.inner.resetWrites()
+		}
 		s.inner.fault = nil
 		if !bytes.Equal(p, orig) {
 			fail("WriteTo modified the caller's packet")
@@ -529,6 +595,83 @@ func c14Seq(c c14Case, res map[string]any) {
 	}
 	res["msgs"] = mouts
 
+	// ---------------- source addresses
+	// A source is a String() value (computed here, by the standard library the code under test is built with).
+	tabled := len(c.Addrs) > 0
+	addrs := make([]net.Addr, len(c.Addrs))
+	names := make([]string, len(c.Addrs))
+	firstOf := map[string]int{} // String() -> first row of the table with that String()
+	for i, sp := range c.Addrs {
+		addrs[i] = sp.build(i)
+		names[i] = addrs[i].String()
+		if _, seen := firstOf[names[i]]; !seen {
+			firstOf[names[i]] = i
+		}
+	}
+	if tabled {
+		hx := make([]string, len(names))
+		for i, nm := range names {
+			hx[i] = vHex([]byte(nm))
+		}
+		res["names"] = hx
+		for i := range names {
+			for j := i + 1; j < len(names); j++ {
+				if (names[i] == names[j]) != (c.Addrs[i].G == c.Addrs[j].G) {
+					fail("address table: the generator's class claim for rows " + strconv.Itoa(i) + " and " + strconv.Itoa(j) + " disagrees with net.Addr.String(): " +
+						strconv.Quote(names[i]) + " / " + strconv.Quote(names[j]))
+				}
+			}
+		}
+		for _, op := range c.Ops {
+			if (op.O == "f" || op.O == "x" || op.O == "p" || op.O == "e") && (op.S < 0 || op.S >= len(addrs)) {
+				fail("generator: source " + strconv.Itoa(op.S) + " outside the address table")
+				return
+			}
+		}
+	}
+	addrOf := func(s int) net.Addr {
+		if tabled {
+			return addrs[s]
+		}
+		return c14Addr(s)
+	}
+	// canonical source number of source number s: the first row with the same String() (s itself without a table:
+	// "s<decimal>" is injective)
+	canon := func(s int) int {
+		if tabled && s >= 0 && s < len(names) {
+			return firstOf[names[s]]
+		}
+		return s
+	}
+	// source number of a key of the implementation's table, for the comparison with the model
+	srcNum := func(a string) int64 {
+		if tabled {
+			if i, known := firstOf[a]; known {
+				return int64(i)
+			}
+			return 1 << 40 // not the String() of any source of the case
+		}
+		return int64(c14SrcNum(a))
+	}
+	// message ids per source (String()): two different messages fed from ONE source under one id are outside the
+	// property's hypothesis (pending messages of one source carry distinct ids); only the model speaks about those
+	idsFed := map[string]map[uint8]map[int]bool{}
+	for _, op := range c.Ops {
+		if (op.O == "f" || op.O == "e" || op.O == "x") && op.M >= 0 && op.M < len(frames) && len(frames[op.M]) > 0 &&
+			len(frames[op.M][0]) >= 2 && len(pkts[op.M]) > 0 && pkts[op.M][0]&0x80 != 0 {
+			ss := addrOf(op.S).String()
+			id := frames[op.M][0][1]
+			if idsFed[ss] == nil {
+				idsFed[ss] = map[uint8]map[int]bool{}
+			}
+			if idsFed[ss][id] == nil {
+				idsFed[ss][id] = map[int]bool{}
+			}
+			idsFed[ss][id][op.M] = true
+		}
+	}
+	clash := func(src string, id uint8) bool { return len(idsFed[src][id]) > 1 }
+
 	// ---------------- receiver side
 	t0 := time.Now()
 	rin := &c14Inner{failedAt: -1}
@@ -540,16 +683,58 @@ func c14Seq(c c14Case, res map[string]any) {
 	delivered := map[[2]int]bool{}
 	period := int64(geckoReassemblyTTL / 2)
 	ttl := int64(geckoReassemblyTTL)
-	// the harness's own record of the pending messages: who they are (entry pointer), when they were first seen,
-	// how many datagrams were fed under their key since, and whether a sweep later than first-seen + TTL has passed
+	// the harness's own record of the pending messages: which entry (pointer), WHOSE it is (the String() of the source
+	// whose datagram created it, and the message id of that datagram - not the implementation's key), when it was
+	// first seen, how many datagrams of that source arrived under that id since, and whether a sweep later than
+	// first-seen + TTL has passed.  ik is where the implementation keeps it (only used to ask "is it still there").
+	type hkey struct {
+		src string
+		id  uint8
+	}
 	type bornT struct {
 		e       *reassemblyEntry
+		ik      reassemblyKey
+		src     string
+		id      uint8
+		known   bool // src/id known (false: an entry first met during a sweep)
 		t       int64
 		replays int
 		lastRep int64
 		overdue bool
 	}
-	born := map[reassemblyKey]*bornT{}
+	born := map[*reassemblyEntry]*bornT{}
+	byKey := map[hkey]*bornT{}
+	bySrc := map[string][]*bornT{}
+	live := func(b *bornT) bool { // caller holds g.mu
+		e, there := g.reassembly[b.ik]
+		return there && e == b.e
+	}
+	record := func(k reassemblyKey, e *reassemblyEntry, src string, id uint8, known bool) {
+		b := &bornT{e: e, ik: k, src: src, id: id, known: known, t: int64(time.Since(t0))}
+		born[e] = b
+		if known {
+			byKey[hkey{src, id}] = b
+			bySrc[src] = append(bySrc[src], b)
+		}
+	}
+	// pending messages of a source that are not yet due (caller holds g.mu)
+	countOf := func(src string) int {
+		l := bySrc[src]
+		keep := l[:0]
+		n := 0
+		for _, b := range l {
+			if !live(b) {
+				continue
+			}
+			keep = append(keep, b)
+			// an entry that a sweep should already have removed does not count against the source
+			if !b.overdue {
+				n++
+			}
+		}
+		bySrc[src] = keep
+		return n
+	}
 	var whys []string
 	failAll := func(s string) {
 		fail(s)
@@ -558,40 +743,22 @@ func c14Seq(c c14Case, res map[string]any) {
 		}
 	}
 	defer func() { res["whys"] = whys }()
-	// note the entry under k (called after every datagram fed under k; entries are only ever created that way)
-	track := func(k reassemblyKey) {
-		now := int64(time.Since(t0))
-		g.mu.Lock()
-		e, ok := g.reassembly[k]
-		g.mu.Unlock()
-		if !ok {
-			delete(born, k)
-			return
-		}
-		if b, ok := born[k]; ok && b.e == e {
-			b.replays++
-			b.lastRep = now
-			return
-		}
-		born[k] = &bornT{e: e, t: now}
-	}
 	// after a sweep at time T (gc tick or direct gcExpired): nothing first seen before T - TTL may remain
 	ttlFlagged := false
 	sweepCheck := func(T int64, what string, si int) {
-		now := int64(time.Since(t0))
 		g.mu.Lock()
 		defer g.mu.Unlock()
 		for k, e := range g.reassembly {
-			b, ok := born[k]
-			if !ok || b.e != e {
-				born[k] = &bornT{e: e, t: now}
+			b, seen := born[e]
+			if !seen {
+				record(k, e, k.addr, k.msgID, false)
 				continue
 			}
 			if T > b.t+ttl {
 				b.overdue = true
 				if !ttlFlagged {
 					ttlFlagged = true
-					failAll("incomplete message (source " + k.addr + ", id " + strconv.Itoa(int(k.msgID)) + ") first seen at " + strconv.FormatInt(b.t, 10) +
+					failAll("incomplete message (source " + b.src + ", id " + strconv.Itoa(int(b.id)) + ") first seen at " + strconv.FormatInt(b.t, 10) +
 						" ns is still pending after the " + what + " at " + strconv.FormatInt(T, 10) + " ns (TTL " + strconv.FormatInt(ttl, 10) + " ns); " +
 						strconv.Itoa(b.replays) + " further datagram(s) arrived under its key, the last at " + strconv.FormatInt(b.lastRep, 10) +
 						" ns (step " + strconv.Itoa(si) + ")")
@@ -599,6 +766,9 @@ func c14Seq(c c14Case, res map[string]any) {
 			}
 		}
 	}
+	// chunks fed so far, per source (String()) and message: a packet may come out at a source only when that
+	// source itself has sent every one of its chunks
+	fedSoFar := map[string]map[int]map[int]bool{}
 	for si, op := range c.Ops {
 		if op.D > 0 {
 			time.Sleep(time.Duration(op.D))
@@ -654,10 +824,25 @@ func c14Seq(c c14Case, res map[string]any) {
 			dg = vUnhex(op.H)
 		}
 		if op.O == "f" || op.O == "x" || op.O == "p" || op.O == "e" {
-			src := c14Addr(op.S)
-			// expectation for no-lock-out, computed before the step
+			src := addrOf(op.S)
+			srcStr := src.String()
+			qsrc := strconv.Quote(srcStr)
+			if op.O == "f" || op.O == "e" {
+				if fs := frames[op.M]; len(fs) > 0 && (op.O == "f" || op.I < len(fs)) {
+					if fedSoFar[srcStr] == nil {
+						fedSoFar[srcStr] = map[int]map[int]bool{}
+					}
+					if fedSoFar[srcStr][op.M] == nil {
+						fedSoFar[srcStr][op.M] = map[int]bool{}
+					}
+					fedSoFar[srcStr][op.M][op.I%len(fs)] = true
+				}
+			}
+			// expectation for no-lock-out, computed before the step from the harness's own record: the source has no
+			// pending message under this id and fewer than 8 pending messages that are not yet due
 			expectKey := false
-			var wantKey reassemblyKey
+			decodable := false
+			var hk hkey
 			tr := dg
 			if len(tr) > 2048 {
 				tr = tr[:2048]
@@ -665,31 +850,31 @@ func c14Seq(c c14Case, res map[string]any) {
 			if len(tr) > 0 && tr[0]&0x80 != 0 {
 				gecko = true
 				if h, _, err := decodeFrame(tr); err == nil {
-					wantKey = reassemblyKey{addr: src.String(), msgID: h.msgID}
+					decodable = true
+					hk = hkey{srcStr, h.msgID}
 					g.mu.Lock()
-					if _, exists := g.reassembly[wantKey]; !exists {
-						n := 0
-						for k, e := range g.reassembly {
-							if k.addr == wantKey.addr {
-								// an entry that a sweep should already have removed does not count against the source
-								if b, ok := born[k]; ok && b.e == e && b.overdue {
-									continue
-								}
-								n++
-							}
-						}
-						expectKey = n < 8
+					if b := byKey[hk]; b == nil || !live(b) {
+						expectKey = countOf(srcStr) < 8
 					}
 					g.mu.Unlock()
 				}
 			}
 			var snap map[reassemblyKey]struct{}
+			// isolation (small tables): what every pending message holds before the step
+			var iso map[*reassemblyEntry]int
 			g.mu.Lock()
-			if len(g.reassembly) >= geckoMaxReassembly {
+			lenBefore := len(g.reassembly)
+			if lenBefore >= geckoMaxReassembly {
 				atCap = true
 				snap = make(map[reassemblyKey]struct{}, len(g.reassembly))
 				for k := range g.reassembly {
 					snap[k] = struct{}{}
+				}
+			}
+			if lenBefore <= 64 {
+				iso = make(map[*reassemblyEntry]int, lenBefore)
+				for _, e := range g.reassembly {
+					iso[e] = e.received
 				}
 			}
 			g.mu.Unlock()
@@ -703,8 +888,10 @@ func c14Seq(c c14Case, res map[string]any) {
 				outp := rbuf[:n]
 				row[0] = int64(n) + 1
 				row[1] = int64(vDigest(outp))
-				if addr == nil || addr.String() != src.String() {
+				if addr == nil || addr.String() != srcStr {
 					fail("packet returned with the wrong source address")
+				} else if addr != src {
+					fail("packet returned with a net.Addr value other than the one the inner conn reported for the datagram")
 				}
 				if !gecko {
 					want := tr
@@ -715,7 +902,7 @@ func c14Seq(c c14Case, res map[string]any) {
 						fail("short-header packet not passed through unchanged")
 					}
 				} else {
-					hit, hitWritten := false, false
+					hit, hitWritten, hitOwn := false, false, false
 					for mi, p := range pkts {
 						w := p
 						if len(w) > len(rbuf) {
@@ -724,15 +911,21 @@ func c14Seq(c c14Case, res map[string]any) {
 						if len(p) > 0 && p[0]&0x80 != 0 && bytes.Equal(outp, w) {
 							hit = true
 							hitWritten = hitWritten || wrote[mi]
+							if wrote[mi] && len(frames[mi]) > 0 && len(fedSoFar[srcStr][mi]) == len(frames[mi]) {
+								hitOwn = true
+							}
 							if (op.O == "f" || op.O == "e") && op.M == mi {
-								delivered[[2]int{mi, op.S}] = true
+								delivered[[2]int{mi, canon(op.S)}] = true
 							}
 						}
 					}
-					if c.Distinct && !hit {
-						fail("reassembler emitted a packet that was never sent (step " + strconv.Itoa(si) + ")")
-					} else if c.Distinct && !hitWritten {
+					exempt := len(tr) >= 2 && clash(srcStr, tr[1])
+					if c.Distinct && !hit && !exempt {
+						fail("reassembler emitted a packet that was never sent (step " + strconv.Itoa(si) + ", delivered for source " + qsrc + ")")
+					} else if c.Distinct && hit && !hitWritten {
 						fail("reassembler emitted a packet whose write failed before all of its chunks were sent (step " + strconv.Itoa(si) + ")")
+					} else if c.Distinct && hit && !hitOwn && !exempt {
+						fail("packet delivered for source " + qsrc + " is not a packet that source sent: not all of its chunks came from that source (step " + strconv.Itoa(si) + ")")
 					}
 				}
 			} else if err != errC14Empty {
@@ -740,31 +933,73 @@ func c14Seq(c c14Case, res map[string]any) {
 			} else if !gecko && len(dg) > 0 {
 				fail("short-header packet swallowed")
 			}
+			evicted := false
 			if snap != nil {
 				g.mu.Lock()
 				for k := range snap {
 					if _, still := g.reassembly[k]; !still {
-						row[5] = int64(c14SrcNum(k.addr)) + 1
+						row[5] = srcNum(k.addr) + 1
 						row[6] = int64(k.msgID)
+						evicted = true
 						break
 					}
 				}
 				g.mu.Unlock()
 			}
-			if expectKey {
-				g.mu.Lock()
-				_, present := g.reassembly[wantKey]
-				g.mu.Unlock()
-				if !present {
-					failAll("source " + src.String() + " refused although it holds fewer than 8 pending messages that are not yet due (step " + strconv.Itoa(si) + ")")
+			// the harness's record: a further datagram under a pending message of this source, or the entry this
+			// datagram has just opened (found under the source's String() when the table is keyed that way, else by
+			// looking for the one entry not met before)
+			g.mu.Lock()
+			nowNs := int64(time.Since(t0))
+			if len(tr) >= 2 && tr[0]&0x80 != 0 {
+				if b := byKey[hkey{srcStr, tr[1]}]; b != nil && live(b) {
+					b.replays++
+					b.lastRep = nowNs
+				} else if decodable {
+					ik := reassemblyKey{addr: srcStr, msgID: hk.id}
+					if e, there := g.reassembly[ik]; there {
+						if born[e] == nil {
+							record(ik, e, srcStr, hk.id, true)
+						}
+					} else if len(g.reassembly) > lenBefore || evicted {
+						for k, e := range g.reassembly {
+							if born[e] == nil {
+								record(k, e, srcStr, hk.id, true)
+								break
+							}
+						}
+					}
 				}
 			}
-			if len(tr) >= 2 && tr[0]&0x80 != 0 {
-				track(reassemblyKey{addr: src.String(), msgID: tr[1]})
+			// isolation: a datagram of one source neither adds a chunk to, nor removes, a pending message of another
+			var isoWhy []string
+			for e, rec := range iso {
+				b := born[e]
+				if b == nil || !b.known || b.src == srcStr {
+					continue
+				}
+				if live(b) {
+					if e.received != rec {
+						isoWhy = append(isoWhy, "a chunk from source "+qsrc+" was added to the pending message (id "+strconv.Itoa(int(b.id))+") of source "+strconv.Quote(b.src)+" (step "+strconv.Itoa(si)+")")
+					}
+				} else if !atCap {
+					isoWhy = append(isoWhy, "the pending message (id "+strconv.Itoa(int(b.id))+") of source "+strconv.Quote(b.src)+" went away when a datagram from source "+qsrc+" arrived (step "+strconv.Itoa(si)+")")
+				}
 			}
-			g.mu.Lock()
-			row[4] = int64(g.perSource[src.String()])
+			admitted := false
+			if decodable {
+				b := byKey[hk]
+				admitted = b != nil && live(b)
+			}
+			row[4] = int64(g.perSource[srcStr])
 			g.mu.Unlock()
+			sort.Strings(isoWhy)
+			for _, w := range isoWhy {
+				failAll(w)
+			}
+			if expectKey && !admitted {
+				failAll("source " + srcStr + " refused although it holds fewer than 8 pending messages that are not yet due (step " + strconv.Itoa(si) + ")")
+			}
 		}
 		g.mu.Lock()
 		row[2] = int64(len(g.reassembly))
@@ -798,7 +1033,7 @@ func c14Seq(c c14Case, res map[string]any) {
 				bm |= 1 << uint(i)
 			}
 		}
-		final = append(final, []int64{int64(c14SrcNum(k.addr)), int64(k.msgID), int64(e.total), int64(e.received), int64(e.deadline.Sub(t0)), bm})
+		final = append(final, []int64{srcNum(k.addr), int64(k.msgID), int64(e.total), int64(e.received), int64(e.deadline.Sub(t0)), bm})
 	}
 	g.mu.Unlock()
 	sort.Slice(final, func(i, j int) bool {
@@ -808,10 +1043,13 @@ func c14Seq(c c14Case, res map[string]any) {
 		return final[i][1] < final[j][1]
 	})
 	res["final"] = final
-	must := c.Must
+	must := make([][2]int, 0, len(c.Must))
+	for _, m := range c.Must {
+		must = append(must, [2]int{m[0], canon(m[1])})
+	}
 	if c.AutoMust {
-		// every long-header packet whose WriteTo returned success must come out at every source from which all
-		// of its frames were fed
+		// every long-header packet whose WriteTo returned success must come out at every source (String()) from
+		// which all of its frames were fed
 		for mi, p := range pkts {
 			if !wrote[mi] || len(p) == 0 || p[0]&0x80 == 0 || len(frames[mi]) == 0 {
 				continue
@@ -819,13 +1057,14 @@ func c14Seq(c c14Case, res map[string]any) {
 			fed := map[int]map[int]bool{}
 			for _, op := range c.Ops {
 				if (op.O == "f" || op.O == "e") && op.M == mi {
-					if fed[op.S] == nil {
-						fed[op.S] = map[int]bool{}
+					cs := canon(op.S)
+					if fed[cs] == nil {
+						fed[cs] = map[int]bool{}
 					}
 					if op.O == "f" {
-						fed[op.S][op.I%len(frames[mi])] = true
+						fed[cs][op.I%len(frames[mi])] = true
 					} else if op.I < len(frames[mi]) {
-						fed[op.S][op.I] = true
+						fed[cs][op.I] = true
 					}
 				}
 			}
@@ -843,8 +1082,12 @@ func c14Seq(c c14Case, res map[string]any) {
 		res["must"] = must
 	}
 	for _, m := range must {
+		mi := m[0]
+		if mi >= 0 && mi < len(frames) && len(frames[mi]) > 0 && len(frames[mi][0]) >= 2 && clash(addrOf(m[1]).String(), frames[mi][0][1]) {
+			continue // two messages of one source under one id: outside the hypothesis
+		}
 		if !delivered[m] {
-			fail("message " + strconv.Itoa(m[0]) + " from source " + strconv.Itoa(m[1]) + " was not delivered although its write succeeded and all its chunks arrived in time")
+			fail("message " + strconv.Itoa(m[0]) + " from source " + strconv.Itoa(m[1]) + " (" + strconv.Quote(addrOf(m[1]).String()) + ") was not delivered although its write succeeded and all its chunks arrived in time")
 		}
 	}
 	for _, w := range idWhys {
